@@ -15,6 +15,7 @@
   control bytes first; `false` = the change of seed C09d).
 -/
 import SonicModel.Impl.Str
+import SonicModel.Impl.Skip
 namespace Sonic
 namespace StrBlock
 open Gen Impl
@@ -119,6 +120,29 @@ end
 
 /-- `parse_string_raw`, reader just after the opening quote -/
 def parseStringRaw (lossy : Bool) (buf : Buf) (i : Nat) : Option DecRes := rawLoop true lossy buf (3 * buf.size + 8) i i
+
+def isSpecial (c : UInt8) : Bool := c == 92 || c == 34 || isCtl c
+
+/-- Layer 2 — the checked `skip_string` of src/parser.rs with its 32-byte blocks: the mask of backslash, quote and control
+    lanes, its first set lane, `skip_escaped_chars` after a backslash, the bytewise loop over the last bytes -/
+def skipStringB (buf : Buf) (len : Nat) : Nat → Nat → IRes
+  | 0, _ => .fuel
+  | f+1, i =>
+    if i + 32 ≤ buf.size then
+      let m := findP isSpecial buf i (i + 32)
+      if m < i + 32 then
+        match buf[m]? with
+        | some c =>
+          if c == 92 then
+            (match skipEscapedChars buf len (m + 1) with
+             | .ok j => if m < j then skipStringB buf len f j else .fuel
+             | r => r)
+          else if c == 34 then .ok (m + 1)
+          else .err .ControlCharacterWhileParsingString (m + 1)
+        | none => .fuel
+      else skipStringB buf len f (i + 32)
+    else skipString buf len i
+
 
 end StrBlock
 end Sonic
